@@ -274,7 +274,29 @@ def build_harness(ctx, tags='verif', name='snaps.test'):
     for f in glob.glob(ROOT + '/harness/snaps/*.go'):
         rep[REPO + '/snaps/zz_verif_' + os.path.basename(f)] = f
     json.dump({'Replace': rep}, open(ov, 'w'))
-    rc, out = sh(['go', 'test', '-c', '-vet=off'] + cover_build_flags() + ['-tags', tags, '-overlay', ov, '-o', out_bin, './snaps'], cwd=REPO)
+    # optional hooks (harness/snaps_opt/<hook>_real.go | <hook>_stub.go): white-box switches that a change to the tree may
+    # remove; the harness is then built with the stub, the worlds that need the hook are dropped (ctx.hooks) and the
+    # missing hook is a broken obligation of its own
+    hooks = sorted(set(os.path.basename(f).rsplit('_', 1)[0] for f in glob.glob(ROOT + '/harness/snaps_opt/*_real.go')))
+    ctx.hooks = {h: True for h in hooks}
+
+    def build():
+        r = dict(rep)
+        for h in hooks:
+            # (both variants are injected under a *_test.go name: the hook belongs to the test binary only)
+            r[REPO + '/snaps/zz_verif_hook_%s_test.go' % h] = ROOT + '/harness/snaps_opt/%s_%s.go' % (h, 'real' if ctx.hooks[h] else 'stub')
+        json.dump({'Replace': r}, open(ov, 'w'))
+        return sh(['go', 'test', '-c', '-vet=off'] + cover_build_flags() + ['-tags', tags, '-overlay', ov, '-o', out_bin, './snaps'], cwd=REPO)
+    rc, out = build()
+    if rc != 0:
+        for h in hooks:
+            ctx.hooks[h] = False
+            rc2, out2 = build()
+            if rc2 == 0:
+                ctx.add_obl('B.hook ' + h, False, 'the harness builds only without the white-box hook %r:\n%s' % (h, out[-1500:]))
+                rc, out = rc2, out2
+                break
+            ctx.hooks[h] = True
     ok = rc == 0 and os.path.exists(out_bin)
     ctx.add_obl('B.harness-builds', ok, '' if ok else out[-3000:])
     if ok:
@@ -709,6 +731,8 @@ def race_stress(ctx, runs=3):
     rep = {}
     for f in glob.glob(ROOT + '/harness/snaps/*.go'):
         rep[REPO + '/snaps/zz_verif_' + os.path.basename(f)] = f
+    for h, real in getattr(ctx, 'hooks', {}).items():
+        rep[REPO + '/snaps/zz_verif_hook_%s_test.go' % h] = ROOT + '/harness/snaps_opt/%s_%s.go' % (h, 'real' if real else 'stub')
     json.dump({'Replace': rep}, open(ov, 'w'))
     rc, out = sh(['go', 'test', '-c', '-race', '-vet=off', '-tags', 'verif', '-overlay', ov, '-o', out_bin, './snaps'], cwd=REPO)
     if rc != 0:
